@@ -10,12 +10,114 @@ namespace HcipyVerif.Mirror
 open HcipyVerif.ModeBasis
 variable {K : Type} [Zero K] [Add K] [Mul K] [DecidableEq K]
 
-/-- The cache invariant: whatever actuator vector the cache claims to belong to, the cached
-surface is the linear combination for *that* vector (with the current influence functions). -/
-def Inv (m : Mirror K) : Prop := ∀ a, m.cached = some a → m.surface = matvec m.infl a
+/-- The cache invariant.
+* `cache`: whatever actuator vector the cache claims to belong to, the cached surface array
+  holds the linear combination for *that* vector (with the current influence functions);
+* `surf_lt`, `outs_lt`: handles point into the heap of surface arrays;
+* `outs_ne`: **no array the caller holds is the cached array** — the clause the repair
+  (pending_fixes/D22f) establishes, and the one `Old.readAlias` breaks. -/
+structure Inv (m : Mirror K) : Prop where
+  cache : ∀ a, m.cached = some a → surface m = matvec m.infl a
+  surf_lt : m.surf < m.sheap.length
+  outs_lt : ∀ h ∈ m.outs, h < m.sheap.length
+  outs_ne : ∀ h ∈ m.outs, h ≠ m.surf
 
-theorem inv_init (infl : List (List K)) (n : Nat) : Inv (init infl n) := by
-  intro a h; simp [init] at h
+theorem inv_init (infl : List (List K)) (n : Nat) : Inv (init infl n) :=
+  ⟨by intro a h; simp [init] at h, by simp [init], by simp [init], by simp [init]⟩
+
+/-! ### the three building blocks of a read -/
+
+theorem getD_append_lt {α} (l l' : List α) (d : α) (i : Nat) (h : i < l.length) :
+    (l ++ l').getD i d = l.getD i d := by
+  simp [List.getD_eq_getElem?_getD, List.getElem?_append_left h]
+
+theorem getD_append_length {α} (l : List α) (x d : α) : (l ++ [x]).getD l.length d = x := by
+  simp [List.getD_eq_getElem?_getD]
+
+theorem getD_modify_ne {α} (l : List α) (f : α → α) (d : α) (h i : Nat) (hne : h ≠ i) :
+    (l.modify h f).getD i d = l.getD i d := by
+  simp [List.getD_eq_getElem?_getD, List.getElem?_modify, hne]
+
+theorem spec_recompute (m : Mirror K) : spec (recompute m) = spec m := rfl
+theorem acts_recompute (m : Mirror K) : acts (recompute m) = acts m := rfl
+
+theorem surface_recompute (m : Mirror K) : surface (recompute m) = matvec m.infl (acts m) := by
+  simp only [surface, recompute]
+  exact getD_append_length _ _ _
+
+theorem recompute_inv (m : Mirror K) (h : Inv m) : Inv (recompute m) := by
+  refine ⟨?_, ?_, ?_, ?_⟩
+  · intro a ha
+    rw [surface_recompute]
+    simp only [recompute, Option.some.injEq] at ha
+    subst ha; rfl
+  · simp [recompute]
+  · intro x hx
+    have := h.outs_lt x hx
+    simp only [recompute, List.length_append, List.length_cons, List.length_nil]
+    omega
+  · intro x hx
+    have := h.outs_lt x hx
+    simp only [recompute]
+    omega
+
+theorem spec_handCopy (m : Mirror K) : spec (handCopy m).1 = spec m := rfl
+theorem handCopy_snd (m : Mirror K) : (handCopy m).2 = surface m := rfl
+
+theorem surface_handCopy (m : Mirror K) (h : m.surf < m.sheap.length) :
+    surface (handCopy m).1 = surface m := by
+  simp only [surface, handCopy]
+  exact getD_append_lt _ _ _ _ h
+
+theorem handCopy_inv (m : Mirror K) (h : Inv m) : Inv (handCopy m).1 := by
+  refine ⟨?_, ?_, ?_, ?_⟩
+  · intro a ha
+    rw [surface_handCopy m h.surf_lt]
+    exact h.cache a ha
+  · have := h.surf_lt
+    simp only [handCopy, List.length_append, List.length_cons, List.length_nil]
+    omega
+  · intro x hx
+    simp only [handCopy, List.mem_append, List.mem_singleton] at hx
+    simp only [handCopy, List.length_append, List.length_cons, List.length_nil]
+    rcases hx with hx | rfl
+    · have := h.outs_lt x hx; omega
+    · omega
+  · intro x hx
+    simp only [handCopy, List.mem_append, List.mem_singleton] at hx
+    simp only [handCopy]
+    rcases hx with hx | rfl
+    · exact h.outs_ne x hx
+    · have := h.surf_lt; omega
+
+theorem spec_editOut (m : Mirror K) (k i : Nat) (v : K) : spec (editOut m k i v) = spec m := by
+  unfold editOut; split <;> rfl
+
+/-- An in-place edit of an array the caller received leaves the cached surface alone — because
+that array is never the cached one (`outs_ne`). -/
+theorem surface_editOut (m : Mirror K) (h : Inv m) (k i : Nat) (v : K) :
+    surface (editOut m k i v) = surface m := by
+  unfold editOut
+  split
+  · next x hx =>
+    simp only [surface]
+    exact getD_modify_ne _ _ _ _ _ (h.outs_ne x (List.mem_of_getElem? hx))
+  · rfl
+
+theorem editOut_inv (m : Mirror K) (h : Inv m) (k i : Nat) (v : K) : Inv (editOut m k i v) := by
+  have hs := surface_editOut m h k i v
+  unfold editOut at hs ⊢
+  split
+  · next x hx =>
+    rw [hx] at hs
+    refine ⟨?_, ?_, ?_, ?_⟩
+    · intro a ha; rw [hs]; exact h.cache a ha
+    · simpa using h.surf_lt
+    · intro y hy; simpa using h.outs_lt y hy
+    · exact h.outs_ne
+  · exact h
+
+/-! ### the `surface` property -/
 
 theorem read_fst_spec (m : Mirror K) : spec (read m).1 = spec m := by
   unfold read; split <;> rfl
@@ -23,27 +125,39 @@ theorem read_fst_spec (m : Mirror K) : spec (read m).1 = spec m := by
 theorem read_snd (m : Mirror K) (h : Inv m) : (read m).2 = matvec m.infl (acts m) := by
   unfold read
   split
-  · next hc => exact h _ hc
-  · rfl
+  · next hc => rw [handCopy_snd]; exact h.cache _ hc
+  · rw [handCopy_snd, surface_recompute]
 
 theorem read_inv (m : Mirror K) (h : Inv m) : Inv (read m).1 := by
   unfold read
   split
-  · exact h
+  · exact handCopy_inv m h
+  · exact handCopy_inv _ (recompute_inv m h)
+
+/-- a change of state that does not touch the surface arrays, the influence functions or the
+cache record keeps the invariant -/
+theorem inv_of_same (m m' : Mirror K) (h : Inv m) (h1 : m'.sheap = m.sheap) (h2 : m'.surf = m.surf)
+    (h3 : m'.outs = m.outs) (h4 : m'.infl = m.infl) (h5 : m'.cached = m.cached) : Inv m' := by
+  refine ⟨?_, ?_, ?_, ?_⟩
   · intro a ha
-    simp at ha
-    subst ha; rfl
+    have := h.cache a (h5 ▸ ha)
+    simpa only [surface, h1, h2, h4] using this
+  · rw [h1, h2]; exact h.surf_lt
+  · rw [h1, h3]; exact h.outs_lt
+  · rw [h2, h3]; exact h.outs_ne
 
 theorem step_inv (m : Mirror K) (op : Op K) (h : Inv m) : Inv (step m op).1 := by
   cases op with
   | read => exact read_inv m h
-  | setInfl i n => intro a ha; simp [step] at ha
+  | editSurface k i v => exact editOut_inv m h k i v
+  | setInfl i n =>
+    exact ⟨by intro a ha; simp [step] at ha, h.surf_lt, h.outs_lt, h.outs_ne⟩
   | reassign j =>
     simp only [step]
     split
+    · exact inv_of_same m _ h rfl rfl rfl rfl rfl
     · exact h
-    · exact h
-  | _ => exact h
+  | _ => exact inv_of_same m _ h rfl rfl rfl rfl rfl
 
 theorem step_spec (m : Mirror K) (op : Op K) (h : Inv m) :
     spec (step m op).1 = ((spec m).step op).1 ∧ (step m op).2 = ((spec m).step op).2 := by
@@ -52,10 +166,26 @@ theorem step_spec (m : Mirror K) (op : Op K) (h : Inv m) :
     refine ⟨read_fst_spec m, ?_⟩
     simp only [step, Spec.step]
     rw [read_snd m h]; rfl
+  | editSurface k i v => exact ⟨spec_editOut m k i v, rfl⟩
   | reassign j =>
     simp only [step, Spec.step, spec]
     by_cases hj : j < m.heap.length <;> simp [hj]
   | _ => simp [step, Spec.step, spec]
+
+/-- the driver's lockstep: stepping the specification alongside the cached mirror is the same as
+projecting the cached mirror's state -/
+theorem run_spec_state (m : Mirror K) (ops : List (Op K)) (h : Inv m) :
+    spec (run m ops).1 = (spec m).after ops := by
+  induction ops generalizing m with
+  | nil => rfl
+  | cons op rest ih =>
+    simp only [run, Spec.after]
+    rw [ih _ (step_inv m op h), (step_spec m op h).1]
+
+theorem run_inv (m : Mirror K) (ops : List (Op K)) (h : Inv m) : Inv (run m ops).1 := by
+  induction ops generalizing m with
+  | nil => exact h
+  | cons op rest ih => exact ih _ (step_inv m op h)
 
 theorem run_spec (m : Mirror K) (ops : List (Op K)) (h : Inv m) :
     (run m ops).2 = (spec m).run ops := by
